@@ -1,4 +1,6 @@
 """C06 — just_once rows are created exactly once per dataset."""
+import json as _json
+
 from . import common, l1, l1cases, recipes
 
 SPEC = {
@@ -185,6 +187,7 @@ def run(ctx, rep, findings):
             break
     l1cases.flush(pending, rep)
     for i in range(ctx.scale(50, 500)):
+        fwd_once_oracle(rep, fwd_once_case(ctx.rng), ctx.rng.randint(2, 4))
         rc = recipes.persist_case(ctx.rng)
         k = ctx.rng.randint(2, 3)
         comps = [c for c in recipes.all_compositions(k) if len(c) > 1]
@@ -218,7 +221,50 @@ def persisted_values_case(rep, rc, k, parts):
                       case, ra[i] if i < len(ra) else None, rb[i] if i < len(rb) else None)
 
 
+def fwd_once_case(rng):
+    """A just_once row that stores a FORWARD reference (and scalars), read back through its nickname / table name by
+    ordinary templates placed before and after the referenced table, in every iteration of one run."""
+    v = rng.choice([2, 3])
+    target = rng.choice(["B", "C"])
+    byname = rng.choice(["n1", "A"])
+    j = {"object": "A", "nickname": "n1", "just_once": True, "fields": [["f1", ["ref", target]], ["f2", ["lit", rng.choice([4, "abc"])]]]}
+    r1 = {"object": "D", "fields": [["f3", ["ref", byname + ".f1"]], ["f2", ["tmpl", [["expr", ["attr", ["name", byname], "f2"]]]]]]}
+    t = {"object": target, "fields": [["f1", ["lit", 1]]]}
+    if rng.random() < 0.4:
+        t["count"] = ["lit", 2]
+    r2 = {"object": "E", "fields": [["f1", ["ref", byname + ".f1"]]]}
+    sts = [j, r1, t, r2] if rng.random() < 0.7 else [j, t, r2, r1]
+    return {"version": v, "options": [], "statements": sts}
+
+
+def fwd_once_oracle(rep, rc, k):
+    from . import l2
+
+    a, text = l2.run_real(rc, [k], final_continuation=False)
+    case = {"kind": "fwd", "ast": rc, "parts": [k], "recipe": text}
+    rep.case({"recipe": text, "parts": [k]}, nontrivial=a.outcome == "ok" and k >= 2)
+    rep.count("fwd-once:" + a.outcome.split(":")[0])
+    if a.outcome != "ok":
+        return
+    seen = {}
+    for table, fields in l2.canon_rows(a.rows):
+        if table in ("D", "E"):
+            for f, val in fields:
+                if f in ("f3", "f1", "f2") and not (table == "E" and f == "f2"):
+                    key = (table, f)
+                    val = _json.dumps(val, sort_keys=True)
+                    if key in seen and seen[key] != val:
+                        rep.violation("C06:just-once-field-value-drifts",
+                                      f"{table}.{f} reads a field of the just_once row: first {seen[key]}, later {val} — a just_once row keeps its original field values in every iteration",
+                                      case, seen[key], val)
+                        return
+                    seen.setdefault(key, val)
+
+
 def replay(case, rep):
+    if case.get("kind") == "fwd":
+        fwd_once_oracle(rep, case["ast"], case["parts"][0])
+        return
     if case.get("kind") == "persist":
         persisted_values_case(rep, case["ast"], sum(case["parts"]), case["parts"])
         return
